@@ -265,6 +265,8 @@ var verifLoopBodies = []struct{ name, decl, body string }{
 	{"null-returning-call-statement", "fn nul() -> null {\n  null\n}\n", "    nul();\n    s += 0;\n"},
 	{"null-literal-statement", "", "    null;\n    s += 0;\n"},
 	{"null-block-statement", "", "    { null };\n    if i >= 0 { null } else { null };\n    s += 0;\n"},
+	{"match-statement-without-default-no-arm-taken", "", "    match i + 1000 { 5 => { s += 1; }, 6 | 7 => { s += 2; } }\n    s += 0;\n"},
+	{"match-statement-diverging-arm-not-taken", "fn pick(n: int) -> int {\n  match n { 100000 => { return 1; }, }\n  return 0;\n}\n", "    s += pick(i);\n"},
 	{"method-call-argument-throws", "fn fail(n: int) -> int {\n  if n >= 0 { throw(\"x\"); }\n  return n;\n}\n", "    let l = [0];\n    try { l.push(fail(i)); } catch e { s += l.len() - 1; }\n"},
 }
 
